@@ -111,8 +111,9 @@ def families(ctx):
     return out
 
 
-def run_real(bindir, texts, timeout=900):
+def run_real(bindir, texts, timeout=900, watchdog_ms=None, budget=None):
     exe = os.path.join(bindir, "parsedump")
+    args = ["--timeout-ms", str(watchdog_ms)] if watchdog_ms else []
     res = []
     # small texts in big batches, large ones in small batches (a crash is bisected by run_json_robust)
     batch, size = [], 0
@@ -120,10 +121,10 @@ def run_real(bindir, texts, timeout=900):
         batch.append(t)
         size += len(t) + 16
         if size > 2_000_000 or len(batch) >= 4000:
-            res += synlib.run_json_robust(exe, [], batch, timeout)
+            res += synlib.run_json_robust(exe, args, batch, timeout, budget)
             batch, size = [], 0
     if batch:
-        res += synlib.run_json_robust(exe, [], batch, timeout)
+        res += synlib.run_json_robust(exe, args, batch, timeout, budget)
     return res
 
 
@@ -153,7 +154,7 @@ def shrink(text, still_fails, budget=12):
 def evaluate(ctx, bindir, exe, sk, cases):
     texts = [t for _f, t in cases]
     t0 = time.time()
-    real = run_real(bindir, texts)
+    real = run_real(bindir, texts, budget={"left": 25})
     t_real = time.time() - t0
     t0 = time.time()
     model = synlib.model_lines(exe, "parse", texts, timeout=1500)
@@ -161,6 +162,8 @@ def evaluate(ctx, bindir, exe, sk, cases):
     oracle_fail, corr_fail, model_bad = [], [], []
     sigs = set()
     for (fam, t), r, m in zip(cases, real, model):
+        if "skipped" in r:
+            continue
         why = synlib.lossless_oracle(t, r)
         if why:
             oracle_fail.append((fam, t, why))
